@@ -506,7 +506,7 @@ Proof.
   { intros H. rewrite (c_repr_round_exact_val _ _ _ _ H). rewrite powerRZ_1. reflexivity. }
   set (wp := powi_work_precision p n) in *.
   assert (Hwp : 1 <= wp).
-  { unfold wp, powi_work_precision. destruct (Z.eqb_spec p 0); [lia|]. unfold powi_guard_digits_gen, bit_len.
+  { unfold wp, powi_work_precision. destruct (Z.eqb_spec p 0); [lia|]. unfold powi_work_precision_gen, powi_guard_digits_gen, bit_len.
     destruct (n =? 0); destruct (p =? 0); pose proof (Z.log2_nonneg (Z.abs n)); pose proof (Z.log2_nonneg (Z.abs p)); lia. }
   pose proof (powi_loop_result B HB wp Hwp m s e Hs n ltac:(lia)) as (D & Ex & _).
   set (res := powi_loop B wp m s e n (Z.to_nat (bit_len n - 2)) (c_sqr B wp m s e)) in *.
@@ -594,7 +594,7 @@ Qed.
 Theorem powi_guard_condition p n : 1 <= p -> 2 <= n -> 3 <= B \/ 4 <= p ->
   guard_condition p n (powi_work_precision p n).
 Proof.
-  intros Hp Hn Hcase. unfold guard_condition, powi_work_precision, powi_guard_digits_gen.
+  intros Hp Hn Hcase. unfold guard_condition, powi_work_precision, powi_work_precision_gen, powi_guard_digits_gen.
   destruct (Z.eqb_spec p 0); [lia|].
   destruct (bit_len_bounds n ltac:(lia)) as (Ln1 & Un & Lown). destruct (bit_len_bounds p Hp) as (Lp1 & Up & Lowp).
   set (L := bit_len n) in *. set (Lp := bit_len p) in *.
@@ -643,7 +643,7 @@ Qed.
 
 Lemma powi_work_precision_gt p n : 1 <= p -> 2 <= n -> p < powi_work_precision p n.
 Proof.
-  intros Hp Hn. unfold powi_work_precision, powi_guard_digits_gen. destruct (Z.eqb_spec p 0); [lia|].
+  intros Hp Hn. unfold powi_work_precision, powi_work_precision_gen, powi_guard_digits_gen. destruct (Z.eqb_spec p 0); [lia|].
   destruct (bit_len_bounds n ltac:(lia)) as (L1 & _). destruct (bit_len_bounds p Hp) as (L2 & _). lia.
 Qed.
 
@@ -825,7 +825,7 @@ Proof.
     lra.
   - set (wp := powi_work_precision rp N) in *.
     assert (Hg : rp + bit_len N + bit_len rp = wp).
-    { unfold wp, powi_work_precision, powi_guard_digits_gen. destruct (Z.eqb_spec rp 0); lia. }
+    { unfold wp, powi_work_precision, powi_work_precision_gen, powi_guard_digits_gen. destruct (Z.eqb_spec rp 0); lia. }
     destruct (bit_len_bounds N ltac:(lia)) as (LN1 & UN & _). destruct (bit_len_bounds rp ltac:(lia)) as (Lr1 & Ur & _).
     assert (Lr2 : 2 <= bit_len rp).
     { destruct (Z_lt_le_dec (bit_len rp) 2); [|assumption]. exfalso. assert (bit_len rp = 1) by lia. rewrite H in Ur. simpl in Ur. lia. }
@@ -879,15 +879,15 @@ Qed.
     x^n = 1 / x^|n|, Exact only if exact *)
 Theorem powi_asis_neg_nearest p m s e n : 1 <= p -> n < 0 -> s <> 0 -> is_half_mode m = true ->
   2 <= p \/ 5 <= B ->
-  dlen B s <= 2 * powi_work_precision (p + powi_neg_guard_bits_gen no_f32 p) (- n) ->
+  dlen B s <= 2 * powi_work_precision (powi_neg_precision_gen no_f32 p (powi_neg_guard_bits_gen no_f32 p)) (- n) ->
   exists a, powi_asis B p m s e n = Ok a /\
     Accepted B p (powerRZ (fval B s e) n) (aval B a) (is_exact a).
 Proof.
   intros Hp Hn Hs Hm Hcase Hd. unfold powi_asis. destruct (Z.ltb_spec n 0); [|lia].
   destruct (Z.eqb_spec p 0); [lia|]. rewrite (reverse_mode_half m Hm).
-  set (rp := p + powi_neg_guard_bits_gen no_f32 p) in *.
+  set (rp := powi_neg_precision_gen no_f32 p (powi_neg_guard_bits_gen no_f32 p)) in *.
   destruct (bit_len_bounds p Hp) as (Lp1 & Up & _).
-  assert (Hrp : rp = p + 2 * bit_len p) by (unfold rp, powi_neg_guard_bits_gen; lia).
+  assert (Hrp : rp = p + 2 * bit_len p) by (unfold rp, powi_neg_precision_gen, powi_neg_guard_bits_gen; lia).
   assert (Hrp3 : 3 <= rp) by lia.
   set (N := - n) in *. assert (HN : 1 <= N) by (unfold N; lia).
   set (X := fval B s e). assert (HX : X <> 0%R) by (apply (fval_neq0 B HB); assumption).
@@ -970,12 +970,13 @@ Theorem powi_asis_nearest_every_exponent B : 2 <= B -> forall p m s e n,
 Proof.
   intros HB p m s e n Hp Hs Hm Hc Hd.
   assert (Hwp : forall q k, 1 <= q -> 1 <= k -> q <= powi_work_precision q k).
-  { intros q k Hq Hk. unfold powi_work_precision, powi_guard_digits_gen. destruct (Z.eqb_spec q 0); [lia|].
+  { intros q k Hq Hk. unfold powi_work_precision, powi_work_precision_gen, powi_guard_digits_gen. destruct (Z.eqb_spec q 0); [lia|].
     pose proof (bit_len_nonneg k). pose proof (bit_len_nonneg q). lia. }
   destruct (Z.lt_trichotomy n 0) as [N|[->|P]].
   - apply powi_asis_neg_nearest; try assumption; [lia|].
     pose proof (bit_len_nonneg p).
-    specialize (Hwp (p + powi_neg_guard_bits_gen no_f32 p) (- n)). unfold powi_neg_guard_bits_gen in *. lia.
+    specialize (Hwp (powi_neg_precision_gen no_f32 p (powi_neg_guard_bits_gen no_f32 p)) (- n)).
+    unfold powi_neg_precision_gen, powi_neg_guard_bits_gen in *. lia.
   - exists (AExact 1 0). split; [reflexivity|]. split.
     + left. unfold aval. cbn [approx_sig approx_exp powerRZ]. apply fval_1_0.
     + intros _. unfold aval. cbn [approx_sig approx_exp powerRZ]. apply fval_1_0.
